@@ -67,7 +67,9 @@ uintptr_t metatype::generic::addref()
 void metatype::generic::unref()
 {
 	if (!_ref.lower()) {
-		delete this;
+		// the block comes from malloc() in create(): destroy in place, release with free()
+		this->~generic();
+		free(this);
 	}
 }
 
